@@ -12,7 +12,10 @@
                         `ham_*_from_edges` = `coordTable`
     Gen/TieFuse.lean    (R1) C05: `calc_fuse_group_info` = the fuse plan `calcFuseGroupInfo`
     Gen/TieRand.lean    (R1) C16: `get_u1_charges` = `u1Charges`
-    Gen/TieFermi.lean   (R1) C04: `oddpos_dag` = `oddposDag`
+    Gen/TieFermi.lean   (R1) C04: `oddpos_dag` = `oddposDag`; (S3) the label scan of `resolve_combined_oddpos` (a `while` loop with
+                        explicit fuel) = `resolveScan` / `mergeOddpos`
+    Gen/TieTrunc.lean   (S3) C13: the integer tail of `calc_sub_max_bonds` = the model's distribution of the remainder
+    (S3) in Gen/TieRand.lean: `get_u1u1_charges` = `u1u1Charges`, `choose_duals` = `chooseDuals`
 
   None of these is imported by SymmModel.lean (the main build must not depend on symmray's source text).
 -/
@@ -23,3 +26,4 @@ import SymmModel.Gen.TieDict
 import SymmModel.Gen.TieFuse
 import SymmModel.Gen.TieRand
 import SymmModel.Gen.TieFermi
+import SymmModel.Gen.TieTrunc
